@@ -164,6 +164,9 @@ var Regexes = []*RegexSpec{
 	{Src: "[a-z]+(-[0-9]+)?", Yes: []string{"ab", "ab-12", "z-0"}, No: []string{"12", "AB", "_"}, Part: []string{"ab-", "1ab", "ab-12x"}},
 	{Src: "(x|y)[0-9]", Yes: []string{"x1", "y9"}, No: []string{"z1", "X1", "xy"}, Part: []string{"x12", "ax1"}},
 	{Src: "\\d\\d\\d", Yes: []string{"123", "000"}, No: []string{"12", "abc", "1a2", "\u0661\u0662\u0663", "\uff11\uff12\uff13"}, Part: []string{"1234"}},
+	// expressions that END in '*' or '+' (a quantifier, not the tail wildcard {v:*}): the variable still stands for one segment
+	{Src: "[a-z][0-9]*", Yes: []string{"a", "a1", "z99"}, No: []string{"1", "A1", "_", "-9"}, Part: []string{"a1x", "1a"}},
+	{Src: "[0-9]+[a-z]*", Yes: []string{"1", "12ab", "7z"}, No: []string{"ab", "_", "X"}, Part: []string{"ab1", "1A"}},
 }
 
 func init() {
